@@ -36,6 +36,33 @@ CLAIMS = {
     "C18": ("F+G+P", "normal-form equality of forwarders; guard evaluation of Integer/PrimInt/Signed/lcm/nth_root early exits; audited panic reachability for Roots",
             "4", "num-traits forwarders equal the inherent methods; Integer::div_floor/mod_floor/div_rem/is_multiple_of follow the num-integer contract on every sign combination; lcm does not overflow when the lcm fits; Roots cannot raise an arithmetic-overflow panic",
             "NOT decided: gcd loop, Newton iteration values."),
+    "C09": ("G+F+P", "guard-tree evaluation; normal-form equality; audited panic reachability",
+            "4", "cast_signed/cast_unsigned/to_bits/from_bits reinterpret the pattern; signed primitive<->bnum casts are the unsigned import/export on the same pattern; CastFrom<bool|char>; AsPrimitive == CastFrom; no CastFrom impl can reach an API-contract panic",
+            "NOT decided: the digit loops of the unsigned casts (extension, truncation, split/pack across digit sizes); bnum->bnum casts. P- is an audited may-analysis."),
+    "C10": ("G+F+P", "guard-tree evaluation (incl. all 256 bytes through the byte-to-digit helper); panic reachability",
+            "4", "radix-range guards precede any read; empty input outcomes; from_radix_be/le pair with the matching endianness terminal (never the opposite one); complete byte-to-digit table; FromStr == from_str_radix(.., 10); only the radix panic is reachable",
+            "NOT decided: grammar / value / error kinds inside from_buf_radix_internal, including the leading-zero rejection the statement mentions."),
+    "C11": ("G+F+P", "guard-tree evaluation; normal-form equality; panic reachability",
+            "4", "radix guards and the zero case of to_radix_be/le, radix-class dispatch, signed == unsigned on the bit pattern, the parse table accepts every digit character the printer emits, only radix panics reachable",
+            "NOT decided: the numerals produced by the conversion loops."),
+    "C13": ("F+G+P", "normal-form equality; guard-tree evaluation; audited panic reachability",
+            "4", "digit-array accessors are the identity on the representation; from_digit; sign guards of the mixed-sign TryFrom impls around the unsigned conversions; no conversion impl can reach an API-contract panic",
+            "NOT decided: representability loops; BTryFrom between different widths (two independent digit counts)."),
+    "C14": ("G", "interprocedural guard-tree evaluation with IEEE-754 bit patterns as values",
+            "4", "float->integer casts of representative f32/f64 values (NaN, infinities, zeros, |x|<1, fractional, around both bounds, negative) equal Rust's `as`; integer->float casts of representative integers (exact, ties both ways, carry into the exponent, infinity threshold) round to nearest-even",
+            "NOT decided: other inputs; primitive digit import/export loops (trusted by contract)."),
+    "C15": ("G+F", "guard-tree evaluation; normal-form equality (nightly configuration in the thorough tier)",
+            "4", "from_le/to_le identity and from_be/to_be byte reversal on this little-endian target, signed forms on the pattern; empty slice -> zero; (thorough) ne == le and signed *_bytes delegate to unsigned",
+            "NOT decided: from_*_slice decoding loops and their accept/reject conditions; big-endian targets."),
+    "C16": ("W+G", "type-level witness crate (rustc const evaluation + trait resolution) and equal-width guard rows",
+            "2.6", "BITS/BYTES/MIN/MAX/ZERO/ONE..TEN/NEG_ONE..NEG_TEN for 4 digit types x 10 digit counts x {U,I}, the 14 aliases, the cast and operator impl matrices (2256 obligations decided by rustc, exhaustive on the grid); identical wrapper routing across digit types at 64 and 192 bits",
+            "NOT decided: cross-digit agreement of loop terminals; commuting with extension to a wider type; parse/print."),
+    "C19": ("F+G+P", "normal-form equality; guard-tree evaluation incl. float values; audited panic reachability",
+            "4", "AsPrimitive == As cast; to_f32/to_f64 == Some(cast); sign guards of signed to_uN and unsigned from_i64/i128; from_f32/from_f64 None/Some routing and truncation on float representatives incl. values whose top bit is the target's top bit; no API-contract panic",
+            "NOT decided: unsigned import/export loops, signed to_iN/from_iN loops."),
+    "C20": ("G+S", "guard-tree evaluation of the uniform sampler on bounds x RNG-word representatives; structure query on Standard",
+            "4", "range / rejection-count construction, in-range-or-reject routing of sample / sample_single(_inclusive) incl. signed ranges spanning zero and wider than half the type, new == new_inclusive(high-1), whole-array fill in Standard",
+            "NOT decided: exact preimage counts (unbiasedness), Fill::try_fill byte view."),
 }
 
 NOT_APPLICABLE = {
